@@ -307,7 +307,7 @@ PROPS = {
         more_modules=["Hb.Props.C03SetTable"],
         ties=[("scen", "mixed", 300, 10000), ("scen", "iter", 150, 4000), ("scen", "entry", 150, 4000),
               ("scen", "table", 120, 4000), ("scen", "set", 100, 3000), ("scen", "reserve", 100, 3000), ("scen", "clone", 80, 3000),
-              ("scen", "panic-mixed", 4, 120), ("scen", "par", 80, 2000, ["sse2"]), ("t1", {})],
+              ("scen", "panic-mixed", 4, 120), ("scen", "par", 80, 2000, ["sse2"]), ("t1", {}), ("custom", extras_oracle)],
         backends=["sse2", "portable"],
         design="§7 C03",
         text="Lean ledger theorems for every environment in which the calls return (released_exactly_once_all_calls covers the whole "
